@@ -107,6 +107,10 @@ def values_equal(a, b):
         if len(a.items) != len(b.items):
             return False
         for x, y in zip(a.items, b.items):
+            if (isinstance(x, float) and x != x) or (isinstance(y, float) and y != y):
+                # no statement fixes whether two arrays that hold a not-a-number at the same place are equal (element
+                # identity or IEEE comparison of the elements): no verdict
+                raise Unspecified("== between arrays holding NaN")
             if not values_equal(x, y):
                 return False
         return True
